@@ -9555,9 +9555,11 @@ class Endfile_Stmt(StmtBase):  # R924
 
     @staticmethod
     def match(string):
-        if string[:7].upper() != "ENDFILE":
+        # The blank in "END FILE" is optional.
+        keyword = re.match(r"end\s*file", string, re.IGNORECASE)
+        if not keyword:
             return
-        line = string[7:].lstrip()
+        line = string[keyword.end() :].lstrip()
         if line.startswith("("):
             if not line.endswith(")"):
                 return
